@@ -587,6 +587,16 @@ def clauseBody : Clause → String
   | .rejectedF2_02 => "batch_exactly_once: a well-formed batch containing a notification is rejected as a duplicate id; the read error tears the session down (F2)"
   | .rejected02 => "batch_exactly_once: a well-formed batch is rejected by Read"
   | .dtWrite => "decode_total: ioConn.Write panicked"
+  | .retryResponsesAltered =>
+    "encode_decode_preserves: the retried request does not carry the fulfilled inputResponses as given (multi round trip)"
+  | .retryStateAltered => "encode_decode_preserves: the retried request does not carry the requestState as given (multi round trip)"
+  | .retryNotDecodedAlike =>
+    "encode_decode_preserves: the server's decoder does not read the retried request's inputResponses / requestState as the keys, kinds and state sent"
+  | .toolAnnHintLost => "required_members_present: ToolAnnotations written without readOnlyHint / idempotentHint (default encoding)"
+  | .toolAnnChanged => "content_roundtrip: ToolAnnotations did not come back as themselves from marshal → unmarshal"
+  | .cloneAliased => "content_roundtrip: a change to a capabilities clone (or to the original) shows in the other's encoding: clone shares a pointer or map"
+  | .cloneDiffers => "content_roundtrip: the encoding of a capabilities clone differs from the original's"
+  | .extNotStored => "content_roundtrip: AddExtension with nil settings did not store an empty object under the name"
   | .refRefused => "content_roundtrip: CompleteReference.MarshalJSON refused a consistent reference"
   | .refChanged => "content_roundtrip: a CompleteReference did not come back as itself from marshal → unmarshal"
   | .refInconsistentWritten =>
@@ -1099,6 +1109,90 @@ def stepWire (d : DState) (toks : List String) (impl : String) : DState × Verdi
         (match obs with | .crash _ => some .writePanic02 | _ => none)
       ({ d with io := io', mon := mon' }, { model := model, violated := viol.map (clauseText d.pid) })
     | _ => bad d
+  | "mrtr.retry" :: _method :: st :: r =>
+    -- `setMultiRoundTripRetryParams` on a request, then the params marshalled and decoded again:
+    -- `<J inputResponses|-> <J requestState|-> | ok s<state> (s<key> <kind>)*` / `… | err`
+    let rec entries (fuel : Nat) (ts : List String) (acc : List (Bytes × JVal)) : Option (List (Bytes × JVal)) :=
+      match fuel, ts with
+      | _, [] => some acc.reverse
+      | 0, _ => none
+      | fuel + 1, k :: _kind :: ts' =>
+        (match pStr [k], pJ ts' with
+          | some (k, []), some (v, r') => entries fuel r' ((k, v) :: acc)
+          | _, _ => none)
+      | _, _ => none
+    match pStr [st], entries (r.length + 1) r [] with
+    | some (state, []), some rs =>
+      let showK : RespKind → String | .roots => "roots" | .elicit => "elicit" | .sampling => "sampling"
+      let ps := retryParams [] rs state
+      let model := showOJ (lookup retry_InputResponses_name ps) ++ " " ++ showOJ (lookup retry_RequestState_name ps) ++ " | " ++
+        (match decodeRetry ps with
+          | .ok (_, s) => " ".intercalate (["ok", "s" ++ hexB s] ++ (sortMembers rs).flatMap (fun p => ["s" ++ hexB p.1, showK (kindD p.2)]))
+          | .error _ => "err")
+      let obs : RetryObs := match impl.splitOn " | " with
+        | [a, b] =>
+          let (sr, ss) : Option JVal × Option JVal := match words a with
+            | "-" :: rest => (none, match pJ rest with | some (v, []) => some v | _ => none)
+            | ws => (match pJ ws with
+              | some (v, rest) => (some v, match pJ rest with | some (w, []) => some w | _ => none)
+              | none => (none, none))
+          let back := match words b with
+            | "ok" :: s :: ks =>
+              (match pStr [s] with
+                | some (s, []) =>
+                  let rec kinds (fuel : Nat) (ts : List String) (acc : List (Bytes × RespKind)) : Option (List (Bytes × RespKind)) :=
+                    match fuel, ts with
+                    | _, [] => some acc.reverse
+                    | 0, _ => none
+                    | fuel + 1, k :: kd :: ts' =>
+                      (match pStr [k], (match kd with | "roots" => some RespKind.roots | "elicit" => some .elicit | "sampling" => some .sampling | _ => none) with
+                        | some (k, []), some kd => kinds fuel ts' ((k, kd) :: acc)
+                        | _, _ => none)
+                    | _, _ => none
+                  (kinds (ks.length + 1) ks []).map (fun l => (l, s))
+                | _ => none)
+            | _ => none
+          { sentResp := sr, sentState := ss, back := back }
+        | _ => { sentResp := none, sentState := none, back := none }
+      out19 d model (retryMonitor rs state obs)
+    | _, _ => bad d
+  | "caps.clone" :: _kind :: cells =>
+    -- the cells set in the value (`<path>:m` a map or a pointee with members, `<path>:z` an empty pointee);
+    -- observed: `cells <n> same <bool> aliased <k> ext <ok|aliased|not-stored>`
+    let n := (cells.filter (fun t => t.endsWith ":m")).length
+    let v : CSlots := (List.range n).map some
+    let h : Heap := (List.range n).map (fun i => JVal.int (Int.ofNat i))
+    let m := modelClone v h (.bool true)
+    let model := s!"cells {n} same {m.same} aliased {m.aliased} ext ok"
+    let obs : CloneObs := match itoks with
+      | "cells" :: _ :: "same" :: sm :: "aliased" :: k :: "ext" :: e :: _ =>
+        { same := sm == "true", aliased := k.toNat?.getD 1,
+          ext := if e == "ok" then some true else if e == "not-stored" then some false else none }
+      | _ => { same := false, aliased := 1, ext := none }
+    out19 d model (cloneMonitor obs)
+  | ["ann.rt", compat, dh, ih, oh, rh, title] =>
+    -- `json.Marshal(ToolAnnotations{…})` under the default encoding (0) or MCPGODEBUG=hintomitempty=1 (1), then
+    -- `json.Unmarshal`: `<J> | <d> <i> <o> <r> s<title>` (hints: t / f / -)
+    let pOB : String → Option (Option Bool) | "-" => some none | "t" => some (some true) | "f" => some (some false) | _ => none
+    let pB : String → Option Bool | "t" => some true | "f" => some false | _ => none
+    let shOB : Option Bool → String | none => "-" | some true => "t" | some false => "f"
+    let shA (a : ToolAnn) : String := s!"{shOB a.destructive} {shOB (some a.idempotent)} {shOB a.openWorld} {shOB (some a.readOnly)} s{hexB a.title}"
+    match pOB dh, pB ih, pOB oh, pB rh, pStr [title] with
+    | some d', some i', some o', some r', some (t', []) =>
+      let a : ToolAnn := ⟨d', i', o', r', t'⟩
+      let c := compat == "1"
+      let model := showJ (encodeAnn c a) ++ " | " ++ (match decodeAnn (encodeAnn c a) with | .ok b => shA b | .error _ => "err")
+      let obs : AnnObs := match impl.splitOn " | " with
+        | [x, y] =>
+          { written := (match pJ (words x) with | some (v, []) => some v | _ => none),
+            back := (match words y with
+              | [d2, i2, o2, r2, t2] => (match pOB d2, pB i2, pOB o2, pB r2, pStr [t2] with
+                | some d2, some i2, some o2, some r2, some (t2, []) => some ⟨d2, i2, o2, r2, t2⟩
+                | _, _, _, _, _ => none)
+              | _ => none) }
+        | _ => { written := none, back := none }
+      out19 d model (annMonitor c a obs)
+    | _, _, _, _, _ => bad d
   | ["ref.rt", t, n, u] =>
     -- `json.Marshal(&CompleteReference{…})`, then `json.Unmarshal` of the text: `refused <class>` / `ok <J> | ok s s s` / `ok <J> | err <class>`
     match pStr [t], pStr [n], pStr [u] with
